@@ -196,7 +196,7 @@ func init() {
 	parserJudges["C10"] = func(pc *parserCase, verbose bool) []string { m, _ := c10Judge(pc, verbose); return m }
 	register(&Check{
 		ID:        "C10",
-		QuickSecs: 300, ThoroSecs: 1500,
+		QuickSecs: 300, ThoroSecs: 3000,
 		Rule: "input-space exploration: 47 command-tree shapes (depth <= 2, fan-out <= 2, options at every level, UnsetOptions wrappers, commands and root without CommandFn) x 3 modes x require-order (off, on the root, on a command only); every argv of length <= L over 15 tokens (command names, sub-command names, options of every level, an option whose value is a command name, an optional-value option with and without attached value, a []string option (1,2) whose extra value may be a command name, positional, terminator); " +
 			"instrumented CommandFns record which function ran, how often, with which context, arguments and option view; compared with the reference model (deepest command on the command path, remaining arguments, parsed values of own and inherited options); every in-domain argv of length <= 3 is also given to a program object that already served one of 5 earlier Parse+Dispatch rounds and must run the same function exactly once; distinct_nontrivial = distinct in-domain cases",
 		Assume: []string{"trees deeper than 2 / wider than 2 and argv longer than L are not covered", "cases where help or a missing required option intervenes belong to C11"},
